@@ -162,12 +162,19 @@ COMBO_S = [
     ("iterator", "return [4, 5].iter();"), ("map", "return {\"k\": [6]};"), ("new-fiber", "return Fiber.new(|| 7);"),
     ("suspended-fiber", "var sf = Fiber.new(|| { var l = [8]; Fiber.yield(l); return l; }); sf.call(); return sf;"),
     ("tuple", "return (9, [9]);"), ("local-function", "fn lf() { return 10; } return lf;"),
+    ("finished-fiber", "var ff = Fiber.new(|| [11]); ff.call(); return ff;"),
+    ("finished-fiber-that-yielded-first", "var ff = Fiber.new(|| { Fiber.yield(1); return [12]; }); ff.call(); ff.call(); return ff;"),
 ]
 COMBO_C = [
     ("main", "prev = step(prev);"),
     ("fiber-finished", "prev = Fiber.new(|p| step(p)).call(prev);"),
     ("fiber-suspended-dropped", "var fb = Fiber.new(|p| { var s = step(p); var hold = [p]; Fiber.yield(s); return hold; }); prev = fb.call(prev);"),
     ("fiber-nested", "prev = Fiber.new(|p| Fiber.new(|q| step(q)).call(p)).call(prev);"),
+    # the survivor is (held by) a fiber that FINISHED after being called by a fiber that stays suspended with the argument on its stack
+    ("finished-fiber-whose-caller-stays-suspended",
+     "var fb = Fiber.new(|p| { var hold = [p]; var inner = Fiber.new(|q| step(q)); inner.call(p); Fiber.yield(inner); return hold; }); prev = fb.call(prev);"),
+    ("value-from-a-fiber-that-finished-inside-a-suspended-one",
+     "var fb = Fiber.new(|p| { var hold = [p]; var inner = Fiber.new(|q| { Fiber.yield(0); return step(q); }); inner.call(p); var s = inner.call(); Fiber.yield([s, inner]); return hold; }); prev = fb.call(prev);"),
 ]
 
 
